@@ -49,6 +49,13 @@ def gen_case(rng, car):
     r = rng.random()
     if r < 0.55:                                   # full tuples: ints (negative too), slices with steps, None
         x, N = gen_tt(rng, cplx)
+        if rng.random() < 0.08:                    # an EMPTY slice somewhere (2:2, n:, 3:1): the dense array gives a valid empty result
+            items = gen_items(rng, N, allow_none=False)
+            ks = [k for k, it in enumerate(items) if it[0] == "s"]
+            if ks:
+                k = rng.choice(ks); n_ = N[k]
+                items[k] = rng.choice([("s", n_, None, None), ("s", 1, 1, None), ("s", n_ + 2, n_ + 5, None), ("s", n_ - 1, 0, None) if n_ > 1 else ("s", 0, 0, None)])
+                return Get(x, items), "tuple-empty-slice", None
         return Get(x, gen_items(rng, N)), "tuple", None
     if r < 0.67:                                   # leading / trailing Ellipsis
         x, N = gen_tt(rng, cplx, d=rng.choice([2, 3, 4, 5]))
